@@ -92,7 +92,7 @@ package ethereum
 // message-published topic, in a receipt with success status; the block number returned is the
 // receipt's. Every such log that parses yields exactly one message, every other log none.
 //@ func MessageEventsForTransaction(ctx context.Context, ethConn Connector, contract eth_common.Address, chainId vaa.ChainID, tx eth_common.Hash) (n uint64, msgs []*common.MessagePublication, err error)
-//@   props C10
+//@   props C10 C04
 //@   requires ethConn != nil
 //@   ensures [messages-wellformed] err == nil ==> forall k in 0..len(msgs) :: msgs[k] != nil && allocated(msgs[k]) && msgs[k].EmitterChain == chainId
 //@   ensures [error-returns-nothing] err != nil ==> len(msgs) == 0
@@ -101,6 +101,7 @@ package ethereum
 //@   nopanic
 //@   replay ethereum_watcher.go.tmpl
 //@   at [return receipt.BlockNumber.Uint64(), msgs, nil]: assert [success-status-only] receipt != nil && receipt.Status == 1
+//@   at [msgs = append(msgs, message)]: assert [message-mirrors-the-event] ev != nil && message.Nonce == ev.Nonce && message.Sequence == ev.Sequence && message.EmitterChain == chainId && message.TargetChain == ev.TargetChainId && message.Payload == ev.Payload && message.ConsistencyLevel == ev.ConsistencyLevel && message.TxHash == ev.Raw.TxHash
 //@   at [msgs = append(msgs, message)]: assert [core-contract-topic-status] l != nil && l.Address == contract && len(l.Topics) >= 1 && l.Topics[0] == LogMessagePublishedTopic && receipt.Status == 1
 //@   at [msgs = append(msgs, message)]: assert [message-of-that-log] message.TxHash == l.TxHash && message.ConsistencyLevel == ev.ConsistencyLevel && message.Sequence == ev.Sequence && message.EmitterChain == chainId && message.Nonce == ev.Nonce
 //@   loop [range receipt.Logs]:
